@@ -300,12 +300,16 @@ impl<'a> C2B<'a> {
     }
     fn and(&mut self, cs: &[usize]) -> usize {
         let mut cs = cs.to_vec();
-        if self.true_nodes && self.rng.chance(0.15) { let t = self.push("A 0".into(), 0); cs.push(t); }
+        // a true node below an and-node, now and then listed twice (the same child index twice is legal in the format)
+        if self.true_nodes && self.rng.chance(0.15) { let t = self.push("A 0".into(), 0); cs.push(t); if self.rng.chance(0.3) { cs.push(t); } }
         if self.rng.chance(0.3) { self.rng.shuffle(&mut cs); }
         let s = format!("A {} {}", cs.len(), cs.iter().map(|c| c.to_string()).collect::<Vec<_>>().join(" "));
         self.push(s, cs.len())
     }
     fn or(&mut self, dec: u32, cs: &[usize]) -> usize {
+        // a false node as a further alternative, listed twice (it adds no model, so the node stays deterministic and smooth)
+        let mut cs = cs.to_vec();
+        if self.true_nodes && self.rng.chance(0.05) { let f = self.push("O 0 0".into(), 0); cs.push(f); cs.push(f); }
         let s = format!("O {} {} {}", dec, cs.len(), cs.iter().map(|c| c.to_string()).collect::<Vec<_>>().join(" "));
         self.push(s, cs.len())
     }
